@@ -306,3 +306,83 @@ class BuilderInsertText:
                 return False
             return op[3] is None if want[1] is None else same_object(op[3], want[1])
         return same_object(op[1], top) and op[3] is None
+
+
+# ------------------------------------------------------------------------------------------- bounded: reconstruct the AFE
+@contract(TB + ".reconstructActiveFormattingElements")
+class ReconstructActiveFormattingElements:
+    """13.2.4.3 "reconstruct the active formatting elements": the entries after the last marker / last entry that is still on
+    the stack of open elements are re-created, in order: for each, an element for the same token is inserted (so it lands on
+    the stack) and replaces the entry."""
+    props = ("C01",)
+    modular = False
+
+    def inputs(S):
+        log = S.list([])
+        n = S.choice(4)                    # entries in the list of active formatting elements
+        open_nodes = [node(S, "html", T.HTML, "html")]
+        afe = []
+        kinds = []
+        for i in range(n):
+            kind = S.one_of("marker", "open", "closed")
+            kinds.append(kind)
+            if kind == "marker":
+                afe.append(None)
+                continue
+            el = node(S, "f%d" % i, T.HTML)
+            el.fields["attributes"] = S.dict({"class": S.str("class%d" % i)})
+            # cloneNode: a new node with the same name, namespace and attributes
+            el.methods = {"cloneNode": lambda I, a, k, el=el: node(S, "clone", el.fields["namespace"], el.fields["name"])}
+            if kind == "open":
+                open_nodes.append(el)
+            afe.append(el)
+        for el in afe:
+            if el is not None:
+                el.methods["cloneNode"] = (lambda el: (lambda I, a, k: _clone(S, el)))(el)
+        tb = builder(S)
+        tb.fields["openElements"] = S.list(open_nodes)
+        tb.fields["activeFormattingElements"] = S.list(afe)
+
+        def insert(I, a, k):
+            tok = a[0]
+            from pyvc.builtins_ import getitem
+            new = node(S, "inserted", getitem(I, tok, "namespace"), getitem(I, tok, "name"))
+            new.fields["attributes"] = getitem(I, tok, "data")
+            tb.fields["openElements"].items.append(new)
+            log.items.append(new)
+            return new
+        from pyvc.values import NativeFn
+        tb.fields["insertElement"] = NativeFn("insertElement", insert)
+        return dict(self=tb, before=S.list(list(afe)), kinds=S.list(kinds), opened=S.list(list(open_nodes)), log=log)
+
+    @ensures("C01")
+    @bounded("lists of active formatting elements with at most 3 entries, each a marker, an element still on the stack or one no longer on it")
+    def recreates_the_tail_in_order(self, before, kinds, opened, log):
+        n = len(before)
+        # first index to re-create: one past the last marker / still-open entry
+        start = 0
+        for i in range(n):
+            if kinds[i] != "closed":
+                start = i + 1
+        afe = self.activeFormattingElements
+        if len(afe) != n or len(log) != n - start or len(self.openElements) != len(opened) + (n - start):
+            return False
+        for i in range(start):
+            if before[i] is None:
+                if afe[i] is not None:
+                    return False
+            elif not same_object(afe[i], before[i]):
+                return False
+        for i in range(start, n):
+            new = log[i - start]
+            if not (same_object(afe[i], new) and same_object(self.openElements[len(opened) + i - start], new)):
+                return False
+            if not (new.name == before[i].name and new.namespace == before[i].namespace and new.attributes == before[i].attributes):
+                return False
+        return True
+
+
+def _clone(S, el):
+    c = node(S, "clone", el.fields["namespace"], el.fields["name"])
+    c.fields["attributes"] = el.fields["attributes"]
+    return c
